@@ -521,6 +521,9 @@ func (r *netRec) portHook(ctx hooking.HookCtx) {
 		// C10 non-triviality: another port is full and has traffic waiting
 		// for it while this delivery (to a different port) goes through.
 		for other, occ := range r.inOcc {
+			if r.fullWhileOtherDelivered {
+				break
+			}
 			if other != name && r.connOfPort[other] == ci && occ >= r.capOfPort[other] && r.pendingTo[other] > 0 {
 				r.fullWhileOtherDelivered = true
 			}
